@@ -6,7 +6,7 @@
    Outage = BLinkDown cause=script (or the first failing client-side write of a connection) while Close has not been called. Judged at the end of the scenario (Quiesced). *)
 EXTENDS MonCommon
 
-MonInit == [ tokens |-> 0, dials |-> 0, cuts |-> <<>>, accepts |-> <<>>, connects |-> <<>>, disc |-> 0, recon |-> 0,
+MonInit == [ tokens |-> 0, dials |-> 0, cuts |-> <<>>, accepts |-> <<>>, connects |-> <<>>, disc |-> 0, recon |-> 0, lastReconI |-> 0,
              streams |-> <<>>,      \* [sid, kind ("up"|"down"), obj, alias, openI, closeCallI, closedErr, streamClosedErr, resumed]
              resumeReqs |-> <<>>,   \* [sid, c, alias, i, kind]
              resumeResps |-> <<>>,  \* [sid, c, code]
@@ -32,7 +32,7 @@ MonStep(m, e) ==
                                                  ELSE [m EXCEPT !.cuts = Append(@, [c |-> e.c, i |-> e.i])]
       [] e.ev = "BRecvReq" /\ e.kind = "ConnectRequest" -> [m EXCEPT !.connects = Append(@, [c |-> e.c, token |-> e.token])]
       [] e.ev = "Disconnected" -> IF m.closeConnI = 0 THEN [m EXCEPT !.disc = @ + 1] ELSE m
-      [] e.ev = "Reconnected" -> [m EXCEPT !.recon = @ + 1]
+      [] e.ev = "Reconnected" -> [m EXCEPT !.recon = @ + 1, !.lastReconI = e.i]
       [] e.ev = "BRecvReq" /\ e.kind = "DownstreamOpenRequest" -> m
       [] e.ev = "ApiRet" /\ e.op \in {"OpenUpstream", "OpenDownstream"} /\ e.err = "" ->
             [m EXCEPT !.streams = Append(@, [sid |-> e.sid, kind |-> IF e.op = "OpenUpstream" THEN "up" ELSE "down", openI |-> e.i,
@@ -67,7 +67,8 @@ LastInc(m) == Max0({ a.c : a \in RangeS(m.accepts) })
 Recovered(m) == NOut(m) > 0 /\ m.recon >= NOut(m) /\ LastInc(m) > Max0({ x.c : x \in RangeS(Outages(m)) })
 \* streams that were open (opened, Close not yet called) when the last outage began
 LastCutI(m) == Max0({ x.i : x \in RangeS(Outages(m)) })
-OpenAtLastCut(m) == { x \in RangeS(m.streams) : x.openI < LastCutI(m) /\ (x.closeCallI = 0 \/ x.closeCallI > LastCutI(m)) }
+\* (a stream the application itself closes while the connection is still down is no longer "open": what becomes of it is C10's business)
+OpenAtLastCut(m) == { x \in RangeS(m.streams) : x.openI < LastCutI(m) /\ (x.closeCallI = 0 \/ x.closeCallI > Max0({LastCutI(m), m.lastReconI})) }
 ReportedClosed(x) == x.closedErr \/ x.streamClosedErr
 ResumedOnLast(m, x) == \E r \in RangeS(m.resumeReqs) : r.sid = x.sid /\ r.c = LastInc(m)
 ResumeRefused(m, x) == \E r \in RangeS(m.resumeResps) : r.sid = x.sid /\ r.code # 1 /\ r.code # 18
